@@ -105,6 +105,7 @@ func TrimOffset() {
 func TrimCount() {
 	e := setup(false, false, false, false)
 	max := vrt.Int("max")
+	vrt.Assume(max >= 0) // a negative count is outside the statement
 	set, err := klevdb.FindByCount(context.Background(), e.lg, max)
 	vrt.Assert(err == nil, "FindByCount succeeds")
 	k := e.isPrefix(set, "FindByCount")
@@ -112,9 +113,6 @@ func TrimCount() {
 	want := 0
 	if n > max {
 		want = n - max
-		if max < 0 {
-			want = n
-		}
 		vrt.Reach("over")
 	} else {
 		vrt.Reach("under")
